@@ -17,7 +17,7 @@ RULE = ("for model configuration classes (tags per predicate class x rated power
 ASSUMPTIONS = ["equality is NaN-aware; where the bulk read reports None the single read may return None or raise ValueError",
                "ids listed twice in a table (ET meter_e_total_exp/imp: float and 8-byte variants) resolve to the later definition in "
                "both paths"]
-MUST = ["history_slow_first_answer", "impossible_clock_contents", "ids_compared", "calculated_ids_compared", "bitmap_ids_compared", "four_byte_meter_ids_compared", "none_in_bulk",
+MUST = ["firmware_version_variants", "history_slow_first_answer", "impossible_clock_contents", "ids_compared", "calculated_ids_compared", "bitmap_ids_compared", "four_byte_meter_ids_compared", "none_in_bulk",
         "history_battery_appears", "history_block_refused_later", "history_device_info_rerun", "history_block_served_later",
         "history_battery_disappears", "configs_run"]
 EXHAUSTIVE = {"quick": False, "thorough": False}
@@ -76,7 +76,7 @@ async def compare_all(g, inv, part, fam, tag, case, step):
 def run_cfg(cfg, part, port, seed, history=None):
     g = env.goodwe()
     rnd = random.Random(seed)
-    style = rnd.choice(("random", "mixed", "sentinel", "random", "ff"))
+    style = rnd.choice(("random", "mixed", "sentinel", "random", "ff", "zero", "smallconst"))
     sim = configs.make_sim(cfg, rnd=rnd, style=style)
     fam = cfg["family"]
     clock = rnd.choice((None, None, bytes(6), bytes([24, 13, 1, 0, 0, 0]), bytes([24, 2, 30, 12, 0, 0]), bytes([24, 5, 17, 24, 0, 0]),
@@ -86,7 +86,7 @@ def run_cfg(cfg, part, port, seed, history=None):
         sim.set_bytes(35100 if fam == "ET" else 30100, clock)
         part.count("impossible_clock_contents")
         style += " clock=" + clock.hex()
-    tag = f"{fam} {cfg['tag']} rated={cfg['rated']} refused={cfg['refused']} battery={cfg['battery']} port={port} {style}"
+    tag = f"{fam} {cfg['tag']} rated={cfg['rated']} refused={cfg['refused']} battery={cfg['battery']} fw={cfg.get('fw_versions')} port={port} {style}"
     case = {"config": cfg, "port": port, "seed": seed, "history": history}
 
     async def flow(loop):
@@ -216,7 +216,13 @@ def run_shard(spec):
     cfgs += list(configs.dt_configs(g, tier)) + list(configs.es_configs(g, tier))[:8]
     if tier == "quick":
         cfgs = [c for i, c in enumerate(cfgs) if c["family"] != "ET" or i % 2 == 0]
+    fwv = configs.firmware_variants()          # firmware dimension: each configuration runs with one (DSP1, DSP2, ARM) version triple
     for i, cfg in enumerate(cfgs):
+        if cfg["family"] in ("ET", "DT"):
+            cfg = dict(cfg, fw_versions=fwv[(i * 5 + env.seed()) % len(fwv)])
+            if cfg["fw_versions"] is not None:
+                part.count("firmware_version_variants")
+
         if i % spec["shards"] != spec["shard"]:
             continue
         port = 8899 if cfg["family"] == "ES" else (502 if i % 3 == 0 else 8899)
